@@ -18,7 +18,8 @@ import gen_designs
 import nlx
 
 RULE = ('random API-built designs (registers with/without reset_value, read/write memories with initial '
-        'contents, pairs of distinct MemBlocks / RomBlocks deliberately given the SAME name with different ports and '
+        'contents, reserved (unconnected) Input/Const pins, sources already optimize()d IN PLACE before the call (a '
+        'constant-masked pin left dangling), pairs of distinct MemBlocks / RomBlocks deliberately given the SAME name with different ports and '
         'contents, ROMs from list/dict/function, ROMs with pad_with_zeros=True and PARTIAL romdata (short list/tuple, '
         'dict with holes) read inside and outside the data, all 16 ops, widths 1..130) x {copy_block, synthesize, '
         'optimize}(update_working_block=False) x {source is / is not the working block} x 2 edit/simulate '
@@ -203,15 +204,21 @@ def memory_value_map(block, memmap_by_id, src_mems=None, notes=None):
     return out
 
 
-def simulate(block, inputs, memmap_by_id, regmap=None, dflt=0, src_mems=None, notes=None):
-    """fresh Simulation; returns (sim, tracer)"""
+def interface(block):
+    return {'inputs': sorted((w.name, w.bitwidth) for w in block.wirevector_subset(pyrtl.Input)),
+            'outputs': sorted((w.name, w.bitwidth) for w in block.wirevector_subset(pyrtl.Output))}
+
+
+def simulate(block, inputs, memmap_by_id, regmap=None, dflt=0, src_mems=None, notes=None, strict=False):
+    """fresh Simulation; returns (sim, tracer).  strict: replay the testbench exactly as written for the source
+    (every input name it supplies), instead of only the names this block still has"""
     mvm = memory_value_map(block, memmap_by_id, src_mems, notes)
     tracer = pyrtl.SimulationTrace(wires_to_track='all', block=block)
     sim = pyrtl.Simulation(tracer=tracer, register_value_map=dict(regmap or {}),
                            memory_value_map=mvm, default_value=dflt, block=block)
     innames = {w.name for w in block.wirevector_subset(pyrtl.Input)}
     for step in inputs:
-        sim.step({k: v for k, v in step.items() if k in innames})
+        sim.step(dict(step) if strict else {k: v for k, v in step.items() if k in innames})
     return sim, tracer
 
 
@@ -458,6 +465,15 @@ def build(ctx, i):
     ncyc = rng.randint(3, 6 if ctx.tier == 'quick' else 12)
     holes = add_padded_rom(rng, d) if rng.random() < 0.6 else None
     dup = add_same_named_memories(rng, d) if rng.random() < 0.5 else None
+    if rng.random() < 0.5:
+        add_reserved_pins(rng, d)
+    if rng.random() < 0.4:
+        # history: the source was already transformed IN PLACE before it is copied
+        add_masked_pin(rng, d)
+        with contextlib.redirect_stdout(io.StringIO()):
+            pyrtl.optimize(block=d.block)
+        pyrtl.set_working_block(d.block, no_sanity_check=True)
+        d.ops.append('history:optimized-in-place')
     _, memmap, inputs = gen_designs.make_stimulus(rng, d, ncyc)
     if dup is not None:
         # different initial contents, and both read at an initialised address in cycle 0
@@ -475,6 +491,31 @@ def build(ctx, i):
         inputs[-1]['c11_ra'] = rng.choice(outside)
     memmap_by_id = {m.id: dict(c) for m, c in memmap.items()}
     return d, memmap, memmap_by_id, inputs
+
+
+def add_reserved_pins(rng, d):
+    """declared but unused interface pins (legal: sanity_check accepts unconnected Inputs and Consts): part of the
+    design's interface, so of every copy's too"""
+    with pyrtl.set_working_block(d.block, no_sanity_check=True):
+        for k in range(rng.randint(1, 2)):
+            p = pyrtl.Input(rng.choice([1, 2, 5, 33]), 'c11_spare%d' % k)
+            d.inputs.append(p)
+        if rng.random() < 0.5:
+            pyrtl.Const(rng.getrandbits(3), bitwidth=3, name='c11_spare_const')
+    d.ops.append('reserved-pins')
+
+
+def add_masked_pin(rng, d):
+    """a 1-bit pin whose only use is masked by a constant (pin & 0 | x): an in-place optimize() folds the gate away
+    and keeps the pin, which is then connected to nothing"""
+    with pyrtl.set_working_block(d.block, no_sanity_check=True):
+        pin = pyrtl.Input(1, 'c11_mpin')
+        x = rng.choice(sorted((w for w in d.block.wirevector_set
+                               if not isinstance(w, (pyrtl.Output, pyrtl.Const))), key=lambda w: w.name))
+        q = pyrtl.Output(1, 'c11_mpin_out')
+        q <<= (pin & pyrtl.Const(0, bitwidth=1)) | x[0]
+    d.inputs.append(pin)
+    d.ops.append('masked-pin')
 
 
 def add_same_named_memories(rng, d):
@@ -612,6 +653,14 @@ def check_one(ctx, i, api, scenario, src, memmap_by_id, inputs, base, chain=None
     if shared_w:
         viol('shared-wire-object:%s' % api, 'source and result of %s share %d wire object(s)' % (api, len(shared_w)),
              shared=sorted(wire_objects(src)[k].name for k in shared_w)[:5])
+    # --- the interface (pins, connected or not) is part of the design: same Inputs/Outputs, names and widths
+    i0, i1 = interface(src), interface(res)
+    for side in ('inputs', 'outputs'):
+        if i0[side] != i1[side]:
+            viol('interface-changed:%s:%s' % (api, side),
+                 '%s(update_working_block=False): the %s of the result differ from the source\'s (missing %s, extra %s)'
+                 % (api, side, [x for x in i0[side] if x not in i1[side]][:4], [x for x in i1[side] if x not in i0[side]][:4]),
+                 source_interface=i0, result_interface=i1)
     for a0, a1 in shared_containers(src, res):
         viol('shared-block-container:%s:%s' % (api, a1),
              'source.%s and result.%s of %s are the SAME %s object: an in-place change of one block\'s %s changes the other'
@@ -662,7 +711,7 @@ def check_one(ctx, i, api, scenario, src, memmap_by_id, inputs, base, chain=None
     src_mems = mems_of(src)
     f19 = []
     try:
-        _, rtr = simulate(res, inputs, memmap_by_id, src_mems=src_mems, notes=f19)
+        _, rtr = simulate(res, inputs, memmap_by_id, src_mems=src_mems, notes=f19, strict=True)
         res_trace = out_trace(res, rtr, ncyc)
         full_trace = {nm: list(v) for nm, v in rtr.trace.items()}
         if f19:
@@ -670,7 +719,7 @@ def check_one(ctx, i, api, scenario, src, memmap_by_id, inputs, base, chain=None
                  'PostSynthBlock.mem_map of the %s result is keyed by the memories of an internal copy, not by the '
                  'source MemBlocks: memory_value_map keyed by the original memory raises KeyError' % api, memids=f19)
     except (pyrtl.PyrtlError, pyrtl.PyrtlInternalError, KeyError) as e:
-        viol('result-not-simulable:%s:%s' % (api, type(e).__name__), 'the result of %s cannot be simulated: %r' % (api, e))
+        viol('result-not-simulable:%s:%s' % (api, type(e).__name__), 'the source\'s testbench (same input names and values) is rejected by the result of %s: %r' % (api, e))
     if res_trace is not None and res_trace != base['out_trace']:
         explained = False
         if reset_dropped:
